@@ -703,10 +703,28 @@ func c07(r *core.Run) {
 						base, _ := core.ConstInt(c.Common().Args[1])
 						shape += fmt.Sprintf("<int base %d>", base)
 						// the integer is d / time.Millisecond
+						if mc, ok := core.Strip(rs6.R(core.Strip(c.Common().Args[0]))).(*ssa.Call); ok && mc.Common().StaticCallee() != nil && mc.Common().StaticCallee().String() == "(time.Duration).Milliseconds" {
+							// the library's own conversion of the guarded duration
+							if core.Strip(mc.Common().Args[0]) == ssa.Value(fn.Params[1]) {
+								shape += "ms"
+							}
+						}
 						if bo, ok := core.Strip(rs6.R(core.Strip(c.Common().Args[0]))).(*ssa.BinOp); ok && bo.Op == token.QUO {
 							if k, ok := core.ConstInt(bo.Y); ok && k == 1000000 {
 								shape += "ms"
 							}
+							// only the parameter is known non-negative (the panic guard): the dividend must be the
+							// parameter itself - arithmetic on it before the division can overflow into a negative number
+							dv := core.Strip(rs6.R(core.Strip(bo.X)))
+							for {
+								cv, ok := dv.(*ssa.Convert)
+								if !ok {
+									break
+								}
+								dv = core.Strip(cv.X)
+							}
+							r.Check(dv == ssa.Value(fn.Params[1]), "P6", core.FuncName(fn), "ms-dividend-is-the-guarded-duration", p.InstrPos(c),
+								"the milliseconds are the guarded (non-negative) duration divided by a constant", "the milliseconds are computed from "+valDesc(bo.X)+", not from the guarded duration itself: arithmetic before the division can overflow for large durations and publish a negative timeout:\"-N\"")
 						}
 					} else {
 						shape += "<?>"
